@@ -727,7 +727,8 @@ class LamGen:
         self.n += 1
         v = 'T%d' % self.n
         k = r.choice(['single', 'single', 'tuple', 'tuple', 'tuple_same', 'tuple_ml', 'tuple_ml', 'nested', 'default',
-                      'call', 'comp', 'bs', 'after_str', 'dict', 'posonly_pair', 'non_ascii'])
+                      'call', 'comp', 'bs', 'after_str', 'dict', 'posonly_pair', 'non_ascii',
+                      'semi', 'semi', 'semi'])
         if k == 'single':
             t, _, _ = self.lam(multiline=r.random() < 0.2)
             if '\n' in t:
@@ -777,6 +778,26 @@ class LamGen:
             t, _, _ = self.lam()
             head, body = t.split(': ', 1)
             self.emitm(ind, '%s = keep(%s: \\\n%s  %s)' % (v, head, ind, body))
+        elif k == 'semi':
+            # several simple statements on ONE physical line separated by ';', each containing lambdas with the same or
+            # different signatures (at module level these are distinct top-level statements with the same lineno)
+            n = r.randrange(2, 5)
+            stmts, like = [], None
+            for i in range(n):
+                m = r.choice([1, 1, 2])
+                items = []
+                for _ in range(m):
+                    t, sg, _ = self.lam(like=like if r.random() < 0.4 else None, allow_posonly=r.random() < 0.3)
+                    like = sg
+                    items.append(t)
+                form = r.choice(['keep', 'assign_keep', 'expr'])
+                if form == 'keep':
+                    stmts.append('keep(%s)' % ', '.join(items))
+                elif form == 'assign_keep':
+                    stmts.append('%s_%d = keep(%s)' % (v, i, ', '.join(items)))
+                else:
+                    stmts.append('%s_%d = [%s]; keep(*%s_%d)' % (v, i, ', '.join(items), v, i))
+            self.emitm(ind, '; '.join(stmts) + r.choice(['', ';', '  # c']))
         elif k == 'non_ascii':
             t, _, _ = self.lam()
             t2, _, _ = self.lam()
